@@ -605,20 +605,136 @@ fn hex(b: &[u8]) -> String {
     s
 }
 
+// ---------------------------------------------------------------- UID values, write histories
+/// where a glyph holds a value the XML property-list writer cannot carry (plist::Value::Uid):
+/// the top-level key of the glyph lib, or the object whose lib holds it
+#[derive(Clone, Debug)]
+enum Upos {
+    Glyph(String),
+    Anchor(usize),
+    Guide(usize),
+    Contour(usize),
+    Point(usize, usize),
+    Comp(usize),
+}
+fn has_uid(v: &plist::Value) -> bool {
+    match v {
+        plist::Value::Uid(_) => true,
+        plist::Value::Array(a) => a.iter().any(has_uid),
+        plist::Value::Dictionary(d) => d.values().any(has_uid),
+        _ => false,
+    }
+}
+fn lib_has_uid(l: Option<&Plist>) -> bool {
+    l.map_or(false, |d| d.values().any(has_uid))
+}
+fn uid_positions(g: &Glyph) -> Vec<Upos> {
+    let mut v = Vec::new();
+    for (k, x) in g.lib.iter() {
+        if has_uid(x) {
+            v.push(Upos::Glyph(k.clone()));
+        }
+    }
+    for (i, a) in g.anchors.iter().enumerate() {
+        if lib_has_uid(a.lib()) {
+            v.push(Upos::Anchor(i));
+        }
+    }
+    for (i, a) in g.guidelines.iter().enumerate() {
+        if lib_has_uid(a.lib()) {
+            v.push(Upos::Guide(i));
+        }
+    }
+    for (i, c) in g.contours.iter().enumerate() {
+        if lib_has_uid(c.lib()) {
+            v.push(Upos::Contour(i));
+        }
+        for (j, p) in c.points.iter().enumerate() {
+            if lib_has_uid(p.lib()) {
+                v.push(Upos::Point(i, j));
+            }
+        }
+    }
+    for (i, a) in g.components.iter().enumerate() {
+        if lib_has_uid(a.lib()) {
+            v.push(Upos::Comp(i));
+        }
+    }
+    v
+}
+fn upos_xt(u: &Upos) -> Xt {
+    match u {
+        Upos::Glyph(k) => Xt::L(vec![Xt::N(0), Xt::s(k)]),
+        Upos::Anchor(i) => Xt::L(vec![Xt::N(1), Xt::N(*i as u64)]),
+        Upos::Guide(i) => Xt::L(vec![Xt::N(2), Xt::N(*i as u64)]),
+        Upos::Contour(i) => Xt::L(vec![Xt::N(3), Xt::N(*i as u64)]),
+        Upos::Point(i, j) => Xt::L(vec![Xt::N(4), Xt::N(*i as u64), Xt::N(*j as u64)]),
+        Upos::Comp(i) => Xt::L(vec![Xt::N(5), Xt::N(*i as u64)]),
+    }
+}
+/// an item of a write history: which history, where in it, what came before
+struct HistCtx {
+    hist: u64,
+    pos: usize,
+    save: bool,
+    desc: Vec<String>,
+    dir: std::path::PathBuf,
+}
+/// the write of one item: encode_xml_with_options, or Glyph::save (default options) read back from the file
+fn write_op(g: &Glyph, o: &WriteOptions, save_to: Option<&std::path::Path>) -> Result<Result<Vec<u8>, String>, String> {
+    catch(|| match save_to {
+        None => g.encode_xml_with_options(o).map_err(|e| format!("{:?}", e)),
+        Some(p) => {
+            let _ = std::fs::remove_file(p);
+            g.save(p).map_err(|e| format!("{:?}", e)).map(|_| std::fs::read(p).unwrap_or_default())
+        }
+    })
+}
+
 /// one case: glyph x options
 fn emit(out: &mut String, id: i64, g: &Glyph, valid: bool, why: &str, ch: u8, count: usize, single: bool, corpus: &str) {
+    emit_ex(out, id, g, valid, why, ch, count, single, corpus, None)
+}
+#[allow(clippy::too_many_arguments)]
+fn emit_ex(out: &mut String, id: i64, g: &Glyph, valid: bool, why: &str, ch: u8, count: usize, single: bool, corpus: &str, hist: Option<&HistCtx>) {
     let o = options(ch, count, single);
-    let enc = catch(|| g.encode_xml_with_options(&o));
+    let save_path = hist.filter(|h| h.save).map(|h| h.dir.join(format!("h{}_{}.glif", h.hist, h.pos)));
+    let enc = write_op(g, &o, save_path.as_deref());
+    // the same write on a thread that has written nothing before
+    let hist_diff = match hist {
+        None => String::new(),
+        Some(h) => {
+            let g2 = g.clone();
+            let o2 = options(ch, count, single);
+            let p2 = save_path.as_ref().map(|_| h.dir.join(format!("h{}_{}_fresh.glif", h.hist, h.pos)));
+            let fresh = std::thread::spawn(move || write_op(&g2, &o2, p2.as_deref())).join().unwrap_or_else(|_| Err("thread died".into()));
+            if fresh == enc {
+                String::new()
+            } else {
+                let show = |r: &Result<Result<Vec<u8>, String>, String>| match r {
+                    Ok(Ok(b)) => format!("Ok, {} bytes: {}", b.len(), String::from_utf8_lossy(b)),
+                    Ok(Err(e)) => format!("Err {}", e),
+                    Err(m) => format!("PANIC {}", m),
+                };
+                format!("after [{}] on the same thread: {}\n---- on a fresh thread: {}", h.desc[..h.pos].join("; "), show(&enc), show(&fresh))
+            }
+        }
+    };
     let tables = collect(g);
-    let case = Xt::L(vec![
+    let uids = uid_positions(g);
+    let mut case_v = vec![
         tm_glyph_o(g, false),
         Xt::L(vec![Xt::N(ch as u64), Xt::N(count as u64), Xt::b(single)]),
         tables_xt(&tables),
-    ]);
+    ];
+    if hist.is_some() || !uids.is_empty() {
+        case_v.push(Xt::L(vec![Xt::N(hist.map_or(0, |h| h.save as u64)), Xt::L(uids.iter().map(upos_xt).collect())]));
+    }
+    let case = Xt::L(case_v);
     let cls = classes(g, count);
     let (bytes, enc_status, reparse, verdict, field) = match enc {
         Err(msg) => (vec![], format!("PANIC {}", msg), Xt::L(vec![]), "encode-panic".to_string(), String::new()),
-        Ok(Err(e)) => (vec![], format!("Err {:?}", e), Xt::L(vec![]), "encode-error".to_string(), String::new()),
+        Ok(Err(e)) => (vec![], format!("Err {}", e), Xt::L(vec![]), "encode-error".to_string(), String::new()),
         Ok(Ok(b)) => {
             let (tm, short, h) = parse_outcome(&b);
             let (verdict, field) = match &h {
@@ -666,7 +782,7 @@ fn emit(out: &mut String, id: i64, g: &Glyph, valid: bool, why: &str, ch: u8, co
     let _ = std::fmt::Write::write_fmt(
         out,
         format_args!(
-            "{{\"id\":{},\"valid\":{},\"why\":{},\"opts\":[{},{},{}],\"classes\":{},\"enc\":{},\"verdict\":{},\"field\":{},\"decl_ok\":{},\"l1_fail\":{},\"case\":{},\"reparse\":{},\"bytes\":{},\"corpus\":{}}}\n",
+            "{{\"id\":{},\"valid\":{},\"why\":{},\"opts\":[{},{},{}],\"classes\":{},\"enc\":{},\"verdict\":{},\"field\":{},\"decl_ok\":{},\"l1_fail\":{},\"case\":{},\"reparse\":{},\"bytes\":{},\"corpus\":{},\"hist\":{},\"hist_diff\":{}}}\n",
             id,
             valid,
             json_str(why),
@@ -682,7 +798,18 @@ fn emit(out: &mut String, id: i64, g: &Glyph, valid: bool, why: &str, ch: u8, co
             json_str(&case.packed()),
             json_str(&reparse.packed()),
             json_str(&hex(&bytes)),
-            json_str(corpus)
+            json_str(corpus),
+            match hist {
+                None => "null".to_string(),
+                Some(h) => format!(
+                    "{{\"history\":{},\"position\":{},\"op\":{},\"items\":{}}}",
+                    h.hist,
+                    h.pos,
+                    json_str(if h.save { "save" } else { "encode" }),
+                    serde_json::to_string(&h.desc).unwrap()
+                ),
+            },
+            json_str(&hist_diff)
         ),
     );
 }
@@ -692,6 +819,200 @@ fn corpus_glyph(text: &str) -> Option<Glyph> {
     Glyph::parse_raw(text.as_bytes()).ok()
 }
 
+// ---------------------------------------------------------------- write histories
+struct Item {
+    g: Glyph,
+    valid: bool,
+    why: &'static str,
+    opts: (u8, usize, bool),
+    save: bool,
+    garbage_before: bool,
+    desc: String,
+}
+fn uid(rng: &mut Rng) -> plist::Value {
+    plist::Value::Uid(plist::Uid::new(rng.below(1000)))
+}
+/// a dictionary with a UID at the top or below, between other entries
+fn uid_dict(rng: &mut Rng, gen_key: &str) -> Plist {
+    let mut d = Plist::new();
+    if rng.chance(2, 3) {
+        d.insert("a.first".into(), plist::Value::String("x".into()));
+    }
+    if rng.chance(1, 2) {
+        d.insert("zz.last".into(), plist::Value::Integer(3.into()));
+    }
+    let u = uid(rng);
+    let v = match rng.below(3) {
+        0 => u,
+        1 => plist::Value::Array(vec![plist::Value::Boolean(true), u]),
+        _ => {
+            let mut n = Plist::new();
+            n.insert("in".into(), plist::Value::String("before".into()));
+            n.insert("u".into(), u);
+            plist::Value::Dictionary(n)
+        }
+    };
+    d.insert(gen_key.into(), v);
+    d
+}
+fn make_lib_nonempty(g: &mut Glyph) {
+    if g.lib.is_empty() {
+        g.lib.insert("com.example.mark".into(), plist::Value::String("1,0,0,1".into()));
+        g.lib.insert("com.example.count".into(), plist::Value::Integer(3.into()));
+    }
+}
+/// the items of history number [n] of a run (a function of the seed and [n] alone)
+fn history(seed: u64, n: u64) -> Vec<Item> {
+    let mut rng = Rng::new(seed.wrapping_mul(1_000_003).wrapping_add(n).wrapping_add(0x5151));
+    let len = rng.range(3, 9) as usize;
+    let mut items: Vec<Item> = Vec::new();
+    let mut owe_valid = 0u64; // valid writes still to follow a failing one
+    while items.len() < len || owe_valid > 0 {
+        let mut r2 = rng.fork();
+        let hard = *r2.pick(&[0u64, 0, 4, 16]);
+        let mut gen = G { rng: &mut r2, next_id: 0, hard };
+        let mut g = gen.glyph();
+        let opts = (*gen.rng.pick(&[b'\t', b' ']), *gen.rng.pick(&[0usize, 1, 1, 2, 4]), gen.rng.chance(1, 3));
+        let kind = if owe_valid > 0 { gen.rng.below(2) } else { 2 + gen.rng.below(9) };
+        let mut it = Item { g: Glyph::new("a"), valid: true, why: "", opts, save: false, garbage_before: false, desc: String::new() };
+        match kind {
+            0 | 2 => {
+                make_lib_nonempty(&mut g);
+                it.garbage_before = gen.rng.chance(1, 3);
+                it.desc = "valid glyph with a lib".into();
+                owe_valid = owe_valid.saturating_sub(1);
+            }
+            1 | 3 => {
+                it.garbage_before = gen.rng.chance(1, 3);
+                it.desc = "valid glyph".into();
+                owe_valid = owe_valid.saturating_sub(1);
+            }
+            4 => {
+                let key = *gen.rng.pick(&["a.uid", "m.uid", "zzz.uid"]);
+                let d = uid_dict(gen.rng, key);
+                for (k, v) in d {
+                    g.lib.insert(k, v);
+                }
+                it.valid = false;
+                it.why = "UID in the glyph lib";
+                it.desc = format!("FAILS: UID in the glyph lib under {}", key);
+                owe_valid = 1 + gen.rng.below(2);
+            }
+            5 | 6 => {
+                let d = uid_dict(gen.rng, "u");
+                let id = Identifier::new(&format!("uid-owner-{}", n)).unwrap();
+                let what = match gen.rng.below(4) {
+                    0 => {
+                        let mut a = Anchor::new(1.0, 2.0, None, None, Some(id));
+                        a.replace_lib(d);
+                        g.anchors.push(a);
+                        "an anchor"
+                    }
+                    1 => {
+                        let mut a = Guideline::new(Line::Vertical(1.0), None, None, Some(id));
+                        a.replace_lib(d);
+                        g.guidelines.push(a);
+                        "a guideline"
+                    }
+                    2 => {
+                        let mut a = Component::new(Name::new("b").unwrap(), AffineTransform::default(), Some(id));
+                        a.replace_lib(d);
+                        g.components.push(a);
+                        "a component"
+                    }
+                    _ => {
+                        let mut p = ContourPoint::new(0.0, 0.0, PointType::Line, false, None, Some(id));
+                        let on_point = gen.rng.chance(1, 2);
+                        if on_point {
+                            p.replace_lib(d.clone());
+                        }
+                        let mut c = Contour::new(vec![p, ContourPoint::new(1.0, 1.0, PointType::Line, false, None, None)], None);
+                        if !on_point {
+                            c.replace_identifier(Identifier::new(&format!("uid-owner-c{}", n)).unwrap());
+                            c.replace_lib(d);
+                        }
+                        g.contours.push(c);
+                        if on_point {
+                            "a point"
+                        } else {
+                            "a contour"
+                        }
+                    }
+                };
+                it.valid = false;
+                it.why = "UID in an object lib";
+                it.desc = format!("FAILS: UID in the lib of {}", what);
+                owe_valid = 1 + gen.rng.below(2);
+            }
+            7 => {
+                // a contour without points is not written, nor is its lib: the write succeeds
+                let mut c = Contour::new(vec![], Some(Identifier::new(&format!("uid-empty-{}", n)).unwrap()));
+                c.replace_lib(uid_dict(gen.rng, "u"));
+                g.contours.push(c);
+                it.desc = "valid: UID in the lib of a contour without points (not written)".into();
+            }
+            8 => {
+                // a user public.objectLibs entry holding a UID: replaced when there are object libs
+                g.lib.insert("public.objectLibs".into(), plist::Value::Dictionary(uid_dict(gen.rng, "u")));
+                it.valid = false;
+                it.why = "user public.objectLibs with a UID";
+                it.save = gen.rng.chance(1, 3);
+                it.desc = format!("{}: UID under a user public.objectLibs key", if it.save { "save, FAILS" } else { "fails unless the glyph has object libs" });
+                owe_valid = 1;
+            }
+            9 => {
+                g.lib.insert("public.objectLibs".into(), plist::Value::String("user".into()));
+                it.valid = false;
+                it.why = "user public.objectLibs";
+                it.save = true;
+                it.desc = "save, FAILS: user public.objectLibs key".into();
+                owe_valid = 1;
+            }
+            _ => {
+                make_lib_nonempty(&mut g);
+                it.save = true;
+                it.desc = "save of a valid glyph with a lib".into();
+            }
+        }
+        if it.save {
+            it.opts = (b'\t', 1, false);
+        }
+        it.g = g;
+        items.push(it);
+        if items.len() > 24 {
+            break;
+        }
+    }
+    items
+}
+const GARBAGE: [&[u8]; 4] = [
+    b"<?xml version=\"1.0\"?><glyph name=\"a\" format=\"2\"><lib><dict><key>k</key>",
+    b"<glyph name=\"a\" format=\"2\"><outline><contour><point x=\"1\" y=\"2\" type=\"line\"/>",
+    b"<glyph name=\"a\" format=\"2\"><note>unfinished",
+    b"<glyph name=\"a\" format=\"2\"><advance width=\"x\"/></glyph>",
+];
+/// run history [n] on a thread of its own, one row per item
+fn run_history(seed: u64, n: u64, dir: &std::path::Path) -> String {
+    let items = history(seed, n);
+    let dir = dir.to_path_buf();
+    std::thread::spawn(move || {
+        let mut out = String::new();
+        let desc: Vec<String> = items.iter().map(|i| i.desc.clone()).collect();
+        for (pos, it) in items.iter().enumerate() {
+            if it.garbage_before {
+                // a failing read before the write and the read-back
+                let _ = catch(|| Glyph::parse_raw(GARBAGE[pos % GARBAGE.len()]).is_ok());
+            }
+            let h = HistCtx { hist: n, pos, save: it.save, desc: desc.clone(), dir: dir.clone() };
+            let id = -(100_000 + (n as i64) * 32 + pos as i64);
+            emit_ex(&mut out, id, &it.g, it.valid, it.why, it.opts.0, it.opts.1, it.opts.2, "", Some(&h));
+        }
+        out
+    })
+    .join()
+    .unwrap_or_default()
+}
+
 pub fn main(a: &Args) {
     if std::env::var("VERIF_DEBUG").is_ok() {
         let _ = std::panic::take_hook();
@@ -699,6 +1020,26 @@ pub fn main(a: &Args) {
     if let Some(p) = &a.replay {
         // replay file: {"glif": <glif text of the glyph>, "opts": [char, count, single]}
         let v: serde_json::Value = serde_json::from_str(&std::fs::read_to_string(p).expect("replay file")).expect("json");
+        if let Some(n) = v.get("history").and_then(|x| x.as_u64()) {
+            // replay file: {"history": n, "seed": s}
+            let seed = v["seed"].as_u64().unwrap_or(1);
+            let rows = run_history(seed, n, &a.out);
+            for l in rows.lines() {
+                let r: serde_json::Value = serde_json::from_str(l).unwrap();
+                let h = &r["hist"];
+                println!(
+                    "item {} ({}; {}): {} | read back: {} {} | {}",
+                    h["position"],
+                    h["op"].as_str().unwrap_or(""),
+                    h["items"][h["position"].as_u64().unwrap_or(0) as usize].as_str().unwrap_or(""),
+                    r["enc"].as_str().unwrap_or(""),
+                    r["verdict"].as_str().unwrap_or(""),
+                    r["field"].as_str().unwrap_or(""),
+                    if r["hist_diff"].as_str().unwrap_or("").is_empty() { "same as on a fresh thread".to_string() } else { format!("DIFFERS from the same write on a fresh thread:\n{}", r["hist_diff"].as_str().unwrap_or("")) }
+                );
+            }
+            return;
+        }
         let g = corpus_glyph(v["glif"].as_str().unwrap_or("")).expect("replay glyph does not parse");
         let o = &v["opts"];
         let (ch, count, single) = (o[0].as_u64().unwrap_or(9) as u8, o[1].as_u64().unwrap_or(1) as usize, o[2].as_bool().unwrap_or(false));
@@ -742,6 +1083,15 @@ pub fn main(a: &Args) {
         }
         write_file(&a.out.join("cases_corpus.jsonl"), &out);
         out.clear();
+    }
+    // write histories: sequences of writes on one thread each, failing ones included
+    let nh = if a.thorough() { 3_000 } else { 200 };
+    for h in 0..nh {
+        out.push_str(&run_history(a.seed, h, &a.out));
+        if (h + 1) % 50 == 0 || h + 1 == nh {
+            write_file(&a.out.join(format!("cases_hist{}.jsonl", h / 50)), &out);
+            out.clear();
+        }
     }
     let n = if a.thorough() { 60_000 } else { 6_000 };
     let per_file = 500;
